@@ -284,37 +284,17 @@ Definition u8_sub1 (d : nat) : res nat :=
    text of the squashed tree itself.
 
    The projector writes a section at nesting `header_level` (a usize) as
-   `GraphBlock::Header(self.header_level as u8 + 1, ..)` (model/projector.rs:38-41): at
-   header_level = 255 the u8 addition overflows: a panic in builds with overflow checks (the
-   harness build), a wrap-around to level 0 otherwise.  Only a squashed tree gets that deep
-   (the reader produces levels 1..6), so the model of that arithmetic lives here. *)
-
-(* the greatest heading level the projector writes for [t] (0: no section) *)
-Fixpoint max_heading_level (hl : nat) (t : tree) {struct t} : nat :=
-  match t with
-  | T _ n kids =>
-      let fix go (h : nat) (l : list tree) {struct l} : nat :=
-        match l with [] => 0 | c :: r => Nat.max (max_heading_level h c) (go h r) end in
-      let fix goi (l : list tree) {struct l} : nat :=
-        match l with
-        | [] => 0
-        | T _ _ ck :: r => Nat.max (go 0 ck) (goi r)
-        end in
-      match n with
-      | NDocument _ => go hl kids
-      | NSection _ => Nat.max (S hl) (go (S hl) kids)
-      | NQuote => go 0 kids
-      | NBList | NOList => goi kids
-      | _ => 0
-      end
-  end.
-
-(* classifier of the known-finding class 1: a heading level that does not fit a u8 *)
-Definition heading_overflow (t : tree) : bool := Nat.leb 256 (max_heading_level 0 t).
+   `GraphBlock::Header(self.header_level + 1, ..)` (model/projector.rs:38-41) and `Level` is a
+   usize (model.rs:129), the type of the counter: the heading level is the nesting + 1 at
+   every depth, as in [project_node] of Project.v (a nat), and `GraphBlock::to_markdown` writes
+   it as that many `#` (model/graph.rs:127-133).  There is no arithmetic that can overflow on
+   this path (as found the level was a u8, `header_level as u8 + 1`, which panicked at nesting
+   255 - only a squashed tree gets that deep, the reader produces levels 1..6 - finding
+   F-C17-1, repaired), so the CLI text is the rendering of the squashed tree for every tree:
+   the result type stays [res] because the observation it is compared with is one. *)
 
 Definition squash_cli_text (key : string) (t : tree) : res string :=
-  if heading_overflow t then Panic "attempt to add with overflow (projector.rs:40)"
-  else Ok (tree_to_markdown (Opts "") [] (key_parent key) t).
+  Ok (tree_to_markdown (Opts "") [] (key_parent key) t).
 
 (* the size bound of C17_size_bound *)
 Fixpoint bound (s r d : nat) : nat :=
